@@ -22,6 +22,7 @@ UPD = {
  "C14-4": ({"C14": 1}, "missed at first; C14 has the copy_then_update operation"),
  "C15-3": ({"C15": 1}, "missed at first; C15 writes the model into two YAML files that refer to one another, with decoy templates"),
  "C16-4": ({"C16": 1}, "missed at first; the judged run may follow an earlier (in-place) translation of the same objects"),
+ "C16-1": ({"C16": 1}, "missed in the first session (two Connectivity objects with coupling edges into one target failed on the clean tree: findings F-16b/F-16h); caught since those were repaired and dynamic (ODE-bearing) coupling edges are generated"),
  "C17-3": ({"C17": 1}, "missed at first; C17 draws a second key (delay) on an edge that is already swept"),
  "C17-4": ({"C17": 1}, "missed at first; C17 draws hierarchical templates and wildcard input keys"),
  "C19-3": ({"C19": 1}, "missed at first; answers returned earlier are held and re-checked"),
